@@ -87,31 +87,36 @@ func TestWorker(t *testing.T) {
 	}
 }
 
-// watchdog: real time, outside every bubble. A run that makes no progress for
-// 20 s (normal runs take about a millisecond) is reported as a hang.
+// watchdog: real time, outside every bubble. A run that makes no progress for 20 s (normal runs take about
+// a millisecond) is reported as a hang, provided the process was not simply kept off the CPUs (StallVerdict).
 func watchdog(out *bufio.Writer) {
 	last := progress.Load()
-	lastChange := time.Now()
+	snap := gosim.TakeSchedSnap()
 	for {
 		time.Sleep(500 * time.Millisecond)
 		if p := progress.Load(); p != last {
-			last, lastChange = p, time.Now()
+			last, snap = p, gosim.TakeSchedSnap()
 			continue
 		}
 		var ms runtime.MemStats
-		if time.Since(lastChange) > 2*time.Second {
+		if time.Since(snap.At) > 2*time.Second {
 			runtime.ReadMemStats(&ms)
 			if ms.HeapAlloc > 6<<30 {
 				fmt.Fprintf(os.Stdout, "\nM %d\n", curIdx.Load())
 				os.Exit(4)
 			}
 		}
-		if time.Since(lastChange) > 20*time.Second {
+		// judged by CPU time and run-queue wait, not by wall-clock alone: a starved process is not a hung one
+		switch gosim.StallVerdict(snap, 20*time.Second) {
+		case "hang":
 			fmt.Fprintf(os.Stdout, "\nH %d\n", curIdx.Load())
 			buf := make([]byte, 1<<16)
 			n := runtime.Stack(buf, true)
 			os.Stderr.Write(buf[:n])
 			os.Exit(3)
+		case "give-up":
+			fmt.Fprintf(os.Stderr, "HARNESS: case %d made no progress for 10 minutes while the process was kept from running (saturated machine); inconclusive\n", curIdx.Load())
+			os.Exit(2)
 		}
 	}
 }
